@@ -682,7 +682,7 @@ func (e *env) balanceDrain(round int) {
 		return
 	}
 	e.run.Case(id, true)
-	drain := p.Call("drain", []neotest.Signer{sg}, p.GasH, "transfer", sg.ScriptHash(), p.Val.ScriptHash(), int64(1_0000_0000), nil)
+	drain := p.Call("drain", []neotest.Signer{sg}, p.GasH, "transfer", sg.ScriptHash(), p.Val.ScriptHash(), have+int64(2_0000_0000), nil) // more than the overpaying transaction leaves, whatever else the payer has pooled
 	if p.AddBlock(drain) == nil {
 		e.run.Violation("producer-rejected-own-block", id, p.Rejected.Error(), nil)
 		e.broken = true
